@@ -46,33 +46,33 @@ Definition ex_u : mstate :=
                     ("(h )", ex_pf "h" [] nan [])] |}.
 
 Ltac in_cases := repeat match goal with
-  | H : In _ (_ :: _) |- _ => destruct H as [H|H]; [subst|]
-  | H : In _ [] |- _ => destruct H
+  | H : _ \/ _ |- _ => destruct H as [H|H]; [subst|]
+  | H : False |- _ => destruct H
   end.
 
 Lemma ex_nums_ok : nums_ok ex_num_text ex_parse_num (values ex_s ++ values ex_t).
 Proof.
   split.
-  - intros x H. simpl in H. in_cases; (eexists; split; [vm_compute; reflexivity|vm_compute; reflexivity]).
-  - intros x y Hx Hy. simpl in Hx, Hy. unfold num_stable. in_cases; vm_compute; intros E; try reflexivity; discriminate E.
+  - intros x H. vm_compute in H. in_cases; (eexists; split; [vm_compute; reflexivity|vm_compute; reflexivity]).
+  - intros x y Hx Hy. vm_compute in Hx, Hy. unfold num_stable. in_cases; vm_compute; intros E; try reflexivity; discriminate E.
 Qed.
 
 Lemma ex_nums_ok_u : nums_ok ex_num_text ex_parse_num (values ex_s ++ values ex_u).
 Proof.
   split.
-  - intros x H. simpl in H. in_cases; (eexists; split; [vm_compute; reflexivity|vm_compute; reflexivity]).
-  - intros x y Hx Hy. simpl in Hx, Hy. unfold num_stable. in_cases; vm_compute; intros E; try reflexivity; discriminate E.
+  - intros x H. vm_compute in H. in_cases; (eexists; split; [vm_compute; reflexivity|vm_compute; reflexivity]).
+  - intros x y Hx Hy. vm_compute in Hx, Hy. unfold num_stable. in_cases; vm_compute; intros E; try reflexivity; discriminate E.
 Qed.
 
 Lemma ex_clean s : s = ex_s \/ s = ex_t \/ s = ex_u -> nums_clean ex_num_text s.
-Proof. intros [->|[->|->]] x H; simpl in H; in_cases; reflexivity. Qed.
+Proof. intros [-> | [-> | ->]] x H; vm_compute in H; in_cases; vm_compute; reflexivity. Qed.
 
 Example ex_hypotheses :
   state_ok ex_s = true /\ state_ok ex_t = true /\ nums_ok ex_num_text ex_parse_num (values ex_s ++ values ex_t) /\
   nums_clean ex_num_text ex_s /\ nums_clean ex_num_text ex_t /\
   state_eq ex_num_text ex_s ex_t = true /\ state_eq ex_num_text ex_s ex_u = false.
 Proof.
-  split; [reflexivity|]. split; [reflexivity|]. split; [exact ex_nums_ok|].
+  split; [vm_compute; reflexivity|]. split; [vm_compute; reflexivity|]. split; [exact ex_nums_ok|].
   split; [apply ex_clean; auto|]. split; [apply ex_clean; auto|]. split; vm_compute; reflexivity.
 Qed.
 
@@ -90,7 +90,7 @@ Proof. repeat split; vm_compute; reflexivity. Qed.
 
 (* build order *)
 Definition ex_components : list component :=
-  [CFact (ex_gp "p" [("?x", "t")] ["a"]); CFluent (ex_pf "f" [("a", "t")] 2.5 []); CFact (ex_gp "q" [("?x", "t"); ("?y", "t")] ["a"; "a"]);
+  [CFact (ex_gp "q" [("?x", "t"); ("?y", "t")] ["a"; "a"]); CFluent (ex_pf "f" [("a", "t")] 2.5 []); CFact (ex_gp "p" [("?x", "t")] ["a"]);
    CFact (ex_gp "p" [("?x", "t")] ["b"]); CFluent (ex_pf "h" [] nan []); CFact (ex_gp "p" [("?x", "t")] ["a"])].
 
 Example ex_build_hypotheses :
@@ -99,8 +99,8 @@ Example ex_build_hypotheses :
   st_preds (build_state true ex_components) <> st_preds (build_state true (rev ex_components)).
 Proof.
   split; [|split; [|split]].
-  - repeat constructor; simpl; intuition discriminate.
-  - simpl. repeat constructor; simpl; intuition discriminate.
+  - repeat constructor; vm_compute; intuition discriminate.
+  - vm_compute. repeat constructor; vm_compute; intuition discriminate.
   - apply Permutation_rev.
-  - vm_compute. discriminate.
+  - vm_compute. intros E. discriminate E.
 Qed.
